@@ -116,6 +116,7 @@ class _NoThreadDul(StubDul):
         StubDul.__init__(self)
         self.max_pdu_length = max_pdu_length
         self.dul_socket = dul_socket
+        self.store_in_file = store_in_file
 
     def stop(self):
         return True
